@@ -10,3 +10,16 @@ func VerifSelect8Lookup() []uint8 { return append([]uint8{}, select8Lookup[:]...
 
 // VerifReclaimed returns the bit index up to which the memory of Words was reclaimed.
 func (tb *TailBitmap) VerifReclaimed() int64 { return tb.reclaimed }
+
+// VerifSelect32Single exposes select32single.
+func VerifSelect32Single(words []uint64, selectIndex []int32, i int32) int32 {
+	return select32single(words, selectIndex, i)
+}
+
+// VerifIndexSelectU64 exposes indexSelectU64.
+func VerifIndexSelectU64(w uint64) uint64 { return indexSelectU64(w) }
+
+// VerifSelectU64Indexed exposes selectU64Indexed.
+func VerifSelectU64Indexed(w uint64, index uint64, findIth uint64) (int32, int) {
+	return selectU64Indexed(w, index, findIth)
+}
